@@ -703,6 +703,14 @@ func chainCase(r *hlib.SplitMix64, gen string) row {
 		if r.Intn(3) > 0 {
 			copy(mac, ouis[r.Intn(len(ouis))])
 		}
+		if r.Intn(5) == 0 {
+			// odd but valid sender addresses: whatever the scan printed for a host is that host's cache entry
+			mac = append([]byte{}, [][]byte{{0, 0, 0, 0, 0, 0}, {0xff, 0xff, 0xff, 0xff, 0xff, 0xff}, {0x01, 0x00, 0x5e, 0x00, 0x00, 0xfb},
+				{0x33, 0x33, 0, 0, 0, 1}, {0, 0, 0, 0, 0, 1}, {0x02, 0, 0, 0, 0, 0}}[r.Intn(6)]...)
+			if !strings.Contains(rw.Class, "special-macs") {
+				rw.Class += "+special-macs"
+			}
+		}
 		op := uint16(layers.ARPReply)
 		if r.Intn(6) == 0 {
 			op = layers.ARPRequest // the ARP scan reports requests it overhears as well
